@@ -103,6 +103,48 @@ def handle (line : Json) : Json :=
         if asy && Sp.truthy dest && !(addrs.contains (dest.getD "")) then .value .none else .value (.bool false)
       | .error _ => .raised "StatusError"
     Json.mkObj [("interp", resJson r), ("model", resJson model)]
+  | "condition_ok" =>
+    let nb : Option String := str? line "nb"
+    let nooa : Option String := str? line "nooa"
+    let tab : List (String × Int) := match (line.getObjVal? "tmtab").bind (·.getArr?) with
+      | .ok a => a.toList.filterMap (fun x => match x.getArr? with
+          | .ok p => match p.toList with
+            | [k, v] => match k.getStr?, v.getInt? with
+              | .ok ks, .ok vi => some (ks, vi)
+              | _, _ => none
+            | _ => none
+          | .error _ => none)
+      | .error _ => []
+    let tm : String → Int := fun x => ((tab.find? (fun p => p.1 == x)).map (·.2)).getD 0
+    let auds : List (List (Option String)) := match (line.getObjVal? "auds").bind (·.getArr?) with
+      | .ok a => a.toList.map optStrs
+      | .error _ => []
+    let extra : List (Option String) := optStrs ((line.getObjVal? "extra").toOption.getD Json.null)
+    let hasConds := boolD line "has_conditions" true
+    let now := intD line "now"
+    let skew := (intD line "skew").toNat
+    let me := strD line "me"
+    let schemas := strList line "schemas"
+    let nooa0 := intD line "nooa0"
+    let cv : Val := if hasConds then condV nb nooa auds extra else .none
+    let out := runMethod Sp.pyStrip (pyExt0 now tm) Gen.PyFuns.AuthnResponse_condition_ok
+      [.obj (selfCondFields cv skew me schemas nooa0), .bool false]
+    let nOut : Json := match nooaOf out.2 with | some v => valJson v | none => Json.null
+    let cfg : Sp.Cfg := { skew := skew, entityId := me, extSchemas := schemas }
+    let env : Sp.Env := { now := now }
+    let st : Sp.St := { notOnOrAfter := nooa0 }
+    let conds : Sp.Conditions := { nb := lexTime tm nb, nooa := lexTime tm nooa, audiences := toModel auds, extra := extra }
+    let a : Sp.Assertion := { conditions := if hasConds then some conds else none }
+    let model : Json := match Sp.conditionOk cfg env st a with
+      | .ok st' => Json.mkObj [("r", "value"), ("v", true), ("nooa", toJson st'.notOnOrAfter)]
+      | .error .conditionNotOk => Json.mkObj [("r", "value"), ("v", false)]
+      | .error e => Json.mkObj [("r", "raised"), ("cls", errClass e)]
+    let interp : Json := match out.1 with
+      | .value (.bool true) => Json.mkObj [("r", "value"), ("v", true), ("nooa", nOut)]
+      | .value v => Json.mkObj [("r", "value"), ("v", valJson v)]
+      | .raised c => Json.mkObj [("r", "raised"), ("cls", c)]
+      | .stuck w => Json.mkObj [("r", "stuck"), ("why", w)]
+    Json.mkObj [("interp", interp), ("model", model)]
   | _ => Json.mkObj [("interp", Json.mkObj [("r", "stuck"), ("why", "unknown function")])]
 
 def main : IO Unit := serve handle
